@@ -44,5 +44,5 @@ package common
 //@   loop 1 invariant count("dynamic:param:unmarshal") == 1
 //@   loop 2 invariant count("dynamic:param:unmarshal") == 1
 //@   loop 3 invariant count("dynamic:param:unmarshal") == 1
-//@   noeffect dynamic:param:unmarshal
+//@   noeffect dynamic:param:unmarshal compat.IsValidLabelName
 //@   assigns nothing
